@@ -156,6 +156,9 @@ func checkSigOpTx(c *vrun.Ctx, t, inKinds, ex tla.Value) {
 		in := inKinds.F(name)
 		h := chainhash.Hash{0xaa, byte(k + 1)}
 		op := wire.NewOutPoint(&h, uint32(k))
+		if in.F("avail").Str() == "null" {
+			op = wire.NewOutPoint(&chainhash.Hash{}, wire.MaxPrevOutIndex)
+		}
 		ti := wire.NewTxIn(op, bytesOf(in.F("sig")), witnessOf(in.F("wit")))
 		tx.AddTxIn(ti)
 		switch in.F("avail").Str() {
